@@ -233,7 +233,7 @@ def main():
     topos = families.curated()
     timeout = 20000
     if args.thorough:
-        topos = topos + families.E(3, 4) + families.E(4, 4)[::7] + families.random_topos(args.seed, 40)
+        topos = topos + families.E(4, 5) + families.E(3, 4, maxN=5)[::2] + families.random_topos(args.seed, 40)
         timeout = 60000
     items = []
     for k, t in enumerate(topos):
@@ -249,8 +249,8 @@ def main():
         "(telescoping lemma, generalised over the first segment's next density), one linear-combination query deriving the network-wide balance "
         "from those lemmas; thorough also attempts the network-wide equation directly on family K as a cross-check; "
         "non-trivial = not closed syntactically; states = queries, transitions = symbolic runs/encodings, each validated against float execution",
-        {"bounds": {"family": "K (18 curated)" + (" + E(3,4) + every 7th of E(4,4) + R(seed,40)" if args.thorough else ""),
-                    "segments_per_link": "<= 3", "values": "all reals (no sign assumptions needed at L1; domain only as fallback)"},
+        {"bounds": {"family": "K (20 curated)" + (" + E(4,5) [725 structures] + every 2nd of E(3,4) with up to 5 segments + R(seed,40)" if args.thorough else ""),
+                    "segments_per_link": "<= 3 (quick), <= 5 (thorough)", "values": "all reals (no sign assumptions needed at L1; domain only as fallback)"},
          "functions_encoded": ["Network.step and everything it calls (see C01)", "Engine.to_function(compact=0) IR (SX, MX)"]})
     assumptions = ["exact real arithmetic; non-zero denominators (L1)", "no positivity clamps (all six options off), as the property states",
                    "ideal-origin inflow is the first-segment flow rho*v*lam of its link (definition of the ideal origin)"]
